@@ -87,8 +87,10 @@ class Antenna(object):
         """
         Set start time before next set of samples.
         """
+        # Convert first: an instant that is refused must not start a new observation
+        t = float(t)
         self.start_obs = True
-        self.t_start = float(t)
+        self.t_start = t
         self.x.set_time(t)
         if self.num_pols == 2:
             self.y.set_time(t)
@@ -232,8 +234,10 @@ class MultiAntennaArray(object):
         """
         Set start time before next set of samples.
         """
+        # Convert first: an instant that is refused must not start a new observation
+        t = float(t)
         self.start_obs = True
-        self.t_start = float(t)
+        self.t_start = t
         self.bg_x.set_time(t)
         if self.num_pols == 2:
             self.bg_y.set_time(t)
